@@ -2,6 +2,7 @@ package chk
 
 import (
 	"bytes"
+	"errors"
 	"fmt"
 	"sort"
 	"sync"
@@ -339,6 +340,19 @@ func TestC18Duplicate(t *testing.T) {
 			f.stop()
 			return
 		}
+		if point == 4 {
+			f.val.SetOutcome(func(kind string, n int, ch datatransfer.ChannelID) (datatransfer.ValidationResult, error) {
+				return datatransfer.ValidationResult{Accepted: true, DataLimit: 1500}, nil
+			})
+		}
+		// report delivers one unique block report in the direction this responder moves data
+		report := func(f *mgrFix, idx int64, size uint64) error {
+			if pull {
+				_, err := f.tp.Events().OnDataQueued(chid, dummyLink, size, idx, true)
+				return err
+			}
+			return f.tp.Events().OnDataReceived(chid, dummyLink, size, idx, true)
+		}
 		deliver()
 		settle()
 		if f.view(chid) == nil {
@@ -357,6 +371,9 @@ func TestC18Duplicate(t *testing.T) {
 			mgrToTerminal(f, chid, role{false, pull}, terminals[r.Intn(3)], r.Intn(2))
 		case 4:
 			f.tp.Events().OnTransferInitiated(chid)
+			settle()
+			// stored progress below a data limit, then a new process lifetime (cold caches)
+			report(f, 1, 1000)
 			settle()
 			f = f.reopen()
 		}
@@ -393,6 +410,28 @@ func TestC18Duplicate(t *testing.T) {
 		}
 		if accepted {
 			c.Violation("C18", fmt.Sprintf("duplicate-accepted point=%d", point), "a duplicate new request for an existing channel id was accepted")
+		}
+		if point == 4 && after != nil {
+			// "exactly as it was" includes what the channel does next: the transfer goes on after the refused
+			// duplicate - the block already recorded is replayed, then a new one crosses the data limit
+			moved := func(v *doubles.StateView) uint64 {
+				if pull {
+					return v.Queued
+				}
+				return v.Received
+			}
+			m0 := moved(after)
+			report(f, 1, 1000)
+			settle()
+			if v := f.view(chid); v != nil && moved(v) != m0 {
+				c.Violation("C18", "duplicate-disturbed-accounting", "after a refused duplicate (new lifetime) a replayed block was counted again: %d -> %d", m0, moved(v))
+			}
+			err := report(f, 2, 600)
+			settle()
+			if !errors.Is(err, datatransfer.ErrPause) {
+				c.Violation("C18", "duplicate-disturbed-data-limit", "after a refused duplicate (new lifetime) the block that crosses the stored data limit (1500) was not answered with a pause: %v", err)
+			}
+			c.Count("followup_after_duplicate", 1)
 		}
 		// creating the same id through the channels API fails as well
 		c.Count("duplicates", 1)
